@@ -198,6 +198,44 @@ def run(ctx):
     ctx.correspond("num.r", lines, outs, classes)
     ctx.correspond("num.r-vs-spec", slines, souts)
 
+    # ---- crcs : read_crcs / write_crcs (theorems crcs_roundtrip, crcs_short_refused)
+    ai = _ai()
+    lines, outs, classes = [], [], []
+    rl, ro, rc = [], [], []
+    edge = [0, 1, 0xFF, 0x100, 0xFFFF, 0x10000, 0x7FFFFFFF, 0x80000000, 0xFFFFFFFE, 0xFFFFFFFF, 0x01020304]
+    for n in list(range(0, 9)) + ([64, 257] if ctx.thorough else [33]):
+        for rep in range(6 if ctx.thorough else 3):
+            crcs = [edge[(rep + i) % len(edge)] if rep % 2 == 0 else rng.getrandbits(32) for i in range(n)]
+            b = io.BytesIO()
+            try:
+                ai.write_crcs(b, crcs)
+                enc = hexs(b.getvalue())
+            except Exception:  # noqa
+                enc = "err"
+            lines.append("crcs.w " + (",".join(map(str, crcs)) if crcs else "-"))
+            outs.append(enc)
+            classes.append("n%d" % min(n, 9))
+            ctx.case(key=("crcsw", tuple(crcs)), nontrivial=n > 0)
+            data = b.getvalue()
+            for extra, cut in ((b"", 0), (b"\xa5\x5a", 0), (b"", 1), (b"", 3), (b"", 4)):
+                d = data + extra
+                if cut:
+                    if len(d) < cut:
+                        continue
+                    d = d[:-cut]
+                f = io.BytesIO(d)
+                try:
+                    got = ai.read_crcs(f, n)
+                    o = "ok %s %s" % (",".join(map(str, got)) if got else "-", hexs(f.read()))
+                except Exception:  # noqa
+                    o = "err"
+                rl.append("crcs.r %d %s" % (n, hexs(d)))
+                ro.append(o)
+                rc.append("short" if cut and n else ("tail" if extra else "exact"))
+                ctx.case(key=("crcsr", n, d), nontrivial=n > 0)
+    ctx.correspond("crcs.w", lines, outs, classes)
+    ctx.correspond("crcs.r", rl, ro, rc)
+
     # ---- bools
     lines, outs, classes = [], [], []
     rl, ro, rc = [], [], []
